@@ -246,6 +246,32 @@ Fixpoint all_ok {A} (l : list (res A)) : res (list A) :=
 Definition assemble (files : list (str * vfile)) (text : str) : res vmdk :=
   do xs <- all_ok (map (open_wired files) (wired (parse_descriptor text))); Ok (mk_vmdk xs).
 
+(* a descriptor that names a parent (parentCID other than ffffffff): every sparse extent is opened with that parent, and a
+   grain an extent does not hold is read from the parent at the ABSOLUTE sector of the disk (extent offset + sector) *)
+Definition str_parentCID : str := [112; 97; 114; 101; 110; 116; 67; 73; 68].
+Definition str_ffffffff : str := [102; 102; 102; 102; 102; 102; 102; 102].
+Definition desc_has_parent (d : descriptor) : res bool :=
+  match assoc_str (d_attr d) str_parentCID with
+  | None => Err                                              (* KeyError *)
+  | Some v => Ok (negb (str_eqb v str_ffffffff))
+  end.
+
+Definition open_wired_p (hp : bool) (files : list (str * vfile)) (w : wkind * str * Z * Z) : res extent :=
+  let '(k, fn, sectors, start) := w in
+  match assoc_str files fn with
+  | None => Err
+  | Some f =>
+      match k with
+      | WSparse => do sp <- open_sparse f; Ok (XSparse f sp hp)
+      | WRaw => Ok (XRaw (if sectors * SECTOR =? 0 then f_size f else sectors * SECTOR) start)
+      end
+  end.
+
+Definition assemble_p (files : list (str * vfile)) (text : str) : res vmdk :=
+  let d := parse_descriptor text in
+  do hp <- desc_has_parent d;
+  do xs <- all_ok (map (open_wired_p hp files) (wired d)); Ok (mk_vmdk xs).
+
 (* ---------- specification of a multi-extent disk ---------- *)
 Definition x_src (x : extent) (soff : Z) (o : Z) : src :=       (* o relative to the extent *)
   match x with
